@@ -155,6 +155,13 @@ class DataMat:
     def __init__(self, rows):
         self.rows = list(rows)
 
+    def sym_subscript(self, ev, idx, n, mod):
+        if isinstance(idx, SliceV) and idx.step is None and all(x is None or (is_sym(x) and x.is_Integer) for x in (idx.lo, idx.hi)):
+            return DataMat(self.rows[slice(*(int(x) if x is not None else None for x in (idx.lo, idx.hi)))])       # some of the rows, each still over every volume
+        if is_sym(idx) and idx.is_Integer:
+            return self.rows[int(idx)]
+        raise ev.err("subscript of the data block other than a range of rows", n, mod)
+
     def sym_getattr(self, ev, name, node, mod):
         if name == "shape":
             return Tup([sp.Integer(len(self.rows)), sp.Symbol("NVOL", positive=True, integer=True)])
@@ -412,6 +419,22 @@ def run_fill(model, sc: Scenario, ctx=None):
         def sym_store(self, ev, idx, v, t, mod):
             """x[<mask>] = 0 on the solution: with one truth value per (component, volume) single entries are overwritten - a component that is small at SOME
             volumes is altered there; with one truth value per component (a reduction over the volumes) whole rows are overwritten"""
+            if isinstance(idx, ArrV) and not idx.batch and len(idx.shape) == 1 and isinstance(v, DataMat):
+                # x[<positions>] = <rows of supplied data>: an index vector names the rows; a boolean mask takes the rows where it is true, in ascending position
+                cells = [idx.get((i_,)) for i_ in range(idx.shape[0])]
+                if all(c in (sp.true, sp.false) or isinstance(c, bool) for c in cells):
+                    if len(cells) != len(self.rows):
+                        raise RaisedV("IndexError")
+                    pos = [i_ for i_, c in enumerate(cells) if c is True or c == sp.true]
+                elif all(is_sym(c) and c.is_Integer for c in cells):
+                    pos = [int(c) for c in cells]
+                else:
+                    raise ev.err("store into the solution matrix at positions that are not constants", t, mod)
+                if len(pos) != len(v.rows):
+                    raise RaisedV("ValueError")
+                for p_, r_ in zip(pos, v.rows):
+                    self.rows[p_] = as_sym(r_)
+                return
             if not (isinstance(idx, PredList) and is_sym(v) and v == 0):
                 raise ev.err("store into the solution matrix other than a masked reset to zero", t, mod)
             if idx.per_volume:
